@@ -110,6 +110,13 @@ class Flow:
         # break/continue outside loop cannot happen in valid code
         return exits
 
+    def run_loop_body(self, body, init_states):
+        """One iteration of a loop body in isolation.
+        -> (ends, breaks, exits): states at the end of the iteration (fall-through or `continue`),
+           states leaving through `break`, and return/raise exits."""
+        out = self.block(body, set(init_states))
+        return set(out.fall) | set(out.cont), set(out.brk), list(out.exits)
+
     # ------------------------------------------------------------------
     def block(self, stmts, states):
         out = _Out()
